@@ -603,7 +603,7 @@ var textCorpus = []string{
 // ---------------------------------------------------------------- the benchfilter path
 
 // runFilter replays cmd/benchfilter/main.go: Files → Filter.Apply → Writer.
-func runFilter(query string, names []string, contents [][]byte, paths []string) {
+func runFilter(query string, names []string, contents [][]byte, paths []string, stdin []byte) {
 	run("filter", func(c *caseB) {
 		c.tag("filter")
 		for i, n := range names {
@@ -619,7 +619,29 @@ func runFilter(query string, names []string, contents [][]byte, paths []string) 
 		if err != nil {
 			panic(err)
 		}
-		files := benchfmt.Files{Paths: paths, AllowStdin: false, AllowLabels: true}
+		// standard input: a file of the case directory, for this process and for the binary
+		if err := os.WriteFile(".stdin", stdin, 0o644); err != nil {
+			panic(err)
+		}
+		in, err := os.Open(".stdin")
+		if err != nil {
+			panic(err)
+		}
+		defer in.Close()
+		oldIn := os.Stdin
+		os.Stdin = in
+		defer func() { os.Stdin = oldIn }()
+		usesStdin := len(paths) == 0
+		for _, p := range paths {
+			if p == "-" || strings.HasSuffix(p, "=-") {
+				usesStdin = true
+			}
+		}
+		if usesStdin {
+			c.tag("stdin")
+			textTags(c, stdin)
+		}
+		files := benchfmt.Files{Paths: paths, AllowStdin: true, AllowLabels: true}
 		for files.Scan() {
 			rec := files.Result()
 			switch rec := rec.(type) {
@@ -640,6 +662,12 @@ func runFilter(query string, names []string, contents [][]byte, paths []string) 
 			c.tag("binary")
 			cmd := exec.Command(bin, append([]string{"--", query}, paths...)...) // "--": a query may start with '-'
 			cmd.Stderr = nil
+			in2, err := os.Open(".stdin")
+			if err != nil {
+				panic(err)
+			}
+			defer in2.Close()
+			cmd.Stdin = in2
 			out, err := cmd.Output()
 			if err != nil || !bytes.Equal(out, c.buf.Bytes()) {
 				c.binDiff = true
@@ -670,7 +698,16 @@ func genFilter(r *hx.Rand) {
 		}
 		paths = append(paths, p)
 	}
-	runFilter(hx.Pick(r, queries), fnames, contents, paths)
+	stdin := genText(r, 2+r.Intn(8), 0)
+	switch r.Intn(6) {
+	case 0: // no inputs: benchfilter reads standard input
+		paths = nil
+	case 1: // "-" among the files (read once)
+		paths = append(paths, "-")
+	case 2:
+		paths = append([]string{"in=-"}, paths...)
+	}
+	runFilter(hx.Pick(r, queries), fnames, contents, paths, stdin)
 }
 
 // ---------------------------------------------------------------- all
@@ -685,8 +722,10 @@ func generate() {
 	}
 	t1 := []byte("k1: v1\nUnit ns/op better=lower\nBenchmarkOne 1 1 ns/op 3 B/op\nk1: v2\nBenchmarkOne 1 2 ns/op\n")
 	t2 := []byte("k2: v2\nBenchmarkTwo 1 2 ns/op\n")
-	runFilter("*", []string{"fa", "fb"}, [][]byte{t1, t2}, []string{"fa", "fb", "fa"})
-	runFilter(".unit:B/op", []string{"fa", "fb"}, [][]byte{t1, t2}, []string{"x=fa", "fb"})
+	runFilter("*", []string{"fa", "fb"}, [][]byte{t1, t2}, []string{"fa", "fb", "fa"}, nil)
+	runFilter("*", []string{"fa", "fb"}, [][]byte{t1, t2}, nil, t1)
+	runFilter("*", []string{"fa", "fb"}, [][]byte{t1, t2}, []string{"fb", "-", "fa"}, t1)
+	runFilter(".unit:B/op", []string{"fa", "fb"}, [][]byte{t1, t2}, []string{"x=fa", "fb"}, nil)
 
 	n := hx.N(5000, 60000)
 	for i := 0; i < n; i++ {
